@@ -5,6 +5,7 @@
    elimination on Q whose result is CHECKED to be a right inverse in every case (the hypothesis of the
    theorems), so nothing is assumed about the elimination itself. *)
 From Coq Require Import QArith List ZArith Bool Floats Arith.
+From Bignums Require Import BigQ.
 Require Import Kawin.Common.Ops Kawin.Common.Vec Kawin.Common.Out Kawin.C10.Model.
 Import ListNotations.
 Open Scope Q_scope.
@@ -24,49 +25,85 @@ Definition fv (l : list float) : qvec := map f2q l.
 Definition fm (l : list (list float)) : qmat := map (map f2q) l.
 
 (* ---- exact Gauss-Jordan inverse ------------------------------------------------------------------ *)
+(* carried out on Bignums' bigQ (machine-word arithmetic; stdlib Q with binary positives is ~20x slower on the
+   several-thousand-bit numbers an exact inverse of binary64 data produces) *)
 Definition qadd (a b : Q) : Q := Qred (a + b).
 Definition qsub (a b : Q) : Q := Qred (a - b).
 Definition qmul (a b : Q) : Q := Qred (a * b).
 Definition qdiv (a b : Q) : Q := Qred (a / b).
-Definition qnz (a : Q) : bool := negb (Qeq_bool a 0).
 
-Definition row_scale (c : Q) (r : qvec) : qvec := map (qmul c) r.
-(* r - c * pr *)
-Definition row_elim (k : nat) (pr r : qvec) : qvec :=
-  let c := nth k r 0 in if qnz c then zipWith (fun x y => qsub x (qmul c y)) r pr else r.
+Definition bqltb (a b : bigQ) : bool := match BigQ.compare a b with Lt => true | _ => false end.
+Definition bqleb (a b : bigQ) : bool := match BigQ.compare a b with Gt => false | _ => true end.
+(* the scalar record on bigQ (same instance as coq/C17/Corr.v, where each operation is proved to be the Qops
+   operation up to Qeq) *)
+Definition BQops : Ops :=
+  mkOps bigQ BigQ.zero BigQ.one BigQ.add_norm BigQ.sub_norm BigQ.mul_norm BigQ.div_norm
+        bqltb bqleb BigQ.eq_bool (fun z => BigQ.Qz (BigZ.of_Z z)).
+Definition bq (q : Q) : bigQ := BigQ.of_Q q.
+Definition unbq (x : bigQ) : Q := Qred (BigQ.to_Q x).
+Definition bvec := list bigQ.
 
-(* split [todo] at the first row whose k-th entry is non-zero *)
-Fixpoint take_pivot (k : nat) (todo acc : list qvec) : option (qvec * list qvec) :=
+(* Fraction-free (Bareiss) Gauss-Jordan on integers.  The entries of K are rationals with few distinct denominators
+   (powers of two and the sum of the formula moles): multiplied by their common denominator L they are integers, and  K^-1 = L * adj(L K) / det(L K).  Every intermediate
+   entry is a minor of L K (no gcd computations; a 16 x 16 case takes 0.2 s instead of 20 s with normalised
+   rationals).  Nothing is assumed about this elimination: its result is checked below, exactly, to be a
+   right inverse. *)
+Definition zvec := list bigZ.
+Definition znz (a : bigZ) : bool := negb (BigZ.eqb a BigZ.zero).
+Fixpoint take_pivot (k : nat) (todo acc : list zvec) : option (zvec * list zvec) :=
   match todo with
   | [] => None
-  | r :: rest => if qnz (nth k r 0) then Some (r, rev acc ++ rest) else take_pivot k rest (r :: acc)
+  | r :: rest => if znz (nth k r BigZ.zero) then Some (r, rev acc ++ rest) else take_pivot k rest (r :: acc)
   end.
-
-Fixpoint gj (steps k : nat) (done todo : list qvec) : option (list qvec) :=
+(* (r * pk - r[k] * pr) / prev *)
+Definition row_elim (k : nat) (pk prev : bigZ) (pr r : zvec) : zvec :=
+  let c := nth k r BigZ.zero in
+  zipWith (fun x y => BigZ.div (BigZ.sub (BigZ.mul x pk) (BigZ.mul c y)) prev) r pr.
+Fixpoint gj (steps k : nat) (prev : bigZ) (done todo : list zvec) : option (list zvec * bigZ) :=
   match steps with
-  | O => Some done
+  | O => Some (done, prev)
   | S st =>
       match take_pivot k todo [] with
       | None => None
-      | Some (r, rest) =>
-          let pr := row_scale (qdiv 1 (nth k r 0)) r in
-          gj st (S k) (map (row_elim k pr) done ++ [pr]) (map (row_elim k pr) rest)
+      | Some (pr, rest) =>
+          let pk := nth k pr BigZ.zero in
+          gj st (S k) pk (map (row_elim k pk prev pr) done ++ [pr]) (map (row_elim k pk prev pr) rest)
       end
   end.
-
-Definition idrow (n i : nat) : qvec := map (fun j => if Nat.eqb i j then 1 else 0) (seq 0 n).
-Definition qinv (A : qmat) : option qmat :=
+Definition idrow (n i : nat) : zvec := map (fun j => if Nat.eqb i j then BigZ.one else BigZ.zero) (seq 0 n).
+Definition common_den (A : qmat) : positive :=
+  fold_right (fun r acc => fold_right (fun x a => Z.to_pos (Z.lcm (Zpos (Qden x)) (Zpos a))) acc r) 1%positive A.
+Definition binv (A : qmat) : option (list bvec) :=
   let n := length A in
-  match gj n 0 [] (map (fun ir => snd ir ++ idrow n (fst ir)) (combine (seq 0 n) A)) with
-  | Some rows => Some (map (skipn n) rows)
+  let L := common_den A in
+  let AZ := map (map (fun x => BigZ.of_Z (Qnum x * (Zpos L / Zpos (Qden x))))) A in
+  match gj n 0 BigZ.one [] (map (fun ir => snd ir ++ idrow n (fst ir)) (combine (seq 0 n) AZ)) with
+  | Some (rows, det) =>
+      let LB := BigZ.of_Z (Zpos L) in
+      Some (map (fun row => map (fun x => BigQ.div_norm (BigQ.Qz (BigZ.mul LB x)) (BigQ.Qz det)) (skipn n row)) rows)
   | None => None
   end.
 
 (* K * Ki = I, exactly *)
-Definition is_right_inv (n : nat) (K Ki : qmat) : bool :=
-  forallb (fun i => forallb (fun j =>
-     Qeq_bool (bigsum Qops n (fun l => qmul (mget Qops K i l) (mget Qops Ki l j)))
-              (if Nat.eqb i j then 1 else 0)) (seq 0 n)) (seq 0 n).
+Definition bdot (a b : bvec) : bigQ := fold_right BigQ.add_norm BigQ.zero (zipWith BigQ.mul_norm a b).
+Definition transpose_b (n : nat) (A : list bvec) : list bvec :=
+  map (fun j => map (fun r => nth j r BigQ.zero) A) (seq 0 n).
+Definition is_right_inv_b (K Ki : list bvec) : bool :=
+  let KiT := transpose_b (length Ki) Ki in
+  forallb (fun ir => forallb (fun jc =>
+     BigQ.eq_bool (bdot (snd ir) (snd jc)) (if Nat.eqb (fst ir) (fst jc) then BigQ.one else BigQ.zero))
+     (combine (seq 0 (length KiT)) KiT)) (combine (seq 0 (length K)) K).
+
+(* the oracle handed to the model: exact inverse (None when singular) and whether K * Ki = I was verified *)
+Definition binv_checked (A : qmat) : option (list bvec) * bool :=
+  match binv A with
+  | Some Bi => (Some Bi, is_right_inv_b (map (map bq) A) Bi)
+  | None => (None, true)
+  end.
+Definition pd_b (d : phase_data Qops) : phase_data BQops :=
+  @mkPD BQops (nsv d) (pdof d) (ncons d) (nel d) (map (map bq) (d2g d)) (map bq (dg d)) (map (map bq) (dxdy d))
+        (map bq (moleA d)) (map (map bq) (cons d)) (map bq (mu d)).
+Definition unbm (A : list bvec) : qmat := map (map unbq) A.
 
 (* ---- matrix comparison ------------------------------------------------------------------------------ *)
 Definition mverdict := option (nat * (nat * (Z * Z * bool))).
@@ -125,22 +162,29 @@ Definition check_fh (rt rt2 : Q) (vp : bool) (r : nat) (X : qvec) (inter : list 
   let n := nel d in
   let N := hsize Qops d in
   let K := hessian Qops d in
-  let Ki := qinv K in
-  let invo := fun _ : qmat => Ki in
-  let H := dMudX Qops invo d r in
-  let P := partialdMudX Qops invo d in
-  let M := computedMob Qops corr raw in
-  let yva := mkvec Qops n (yva_of Qops vars y) in
-  let mm := mobility_matrix Qops vp X inter M yva in
-  let Dk := chemical_diffusivity Qops vp X inter M yva P in
-  let D := interdiff_of Qops n r inter Dk in
-  let kmax := match Ki with Some A => maxabs A | None => 0 end in
+  let dB := pd_b d in
+  let KiC := binv_checked K in
+  let Ki := fst KiC in
+  let invo := fun _ : list bvec => Ki in
+  let XB := map bq X in
+  let MB := computedMob BQops (map bq corr) (map bq raw) in
+  let yvaB := mkvec BQops n (yva_of BQops vars (map bq y)) in
+  let PB := partialdMudX BQops invo dB in
+  let H := unbm (dMudX BQops invo dB r) in
+  let P := unbm PB in
+  let DkB := chemical_diffusivity BQops vp XB inter MB yvaB PB in
+  let Dk := unbm DkB in
+  let D := unbm (interdiff_of BQops n r inter DkB) in
+  let mm := mobility_matrix Qops vp X inter (computedMob Qops corr raw) (mkvec Qops n (yva_of Qops vars y)) in
+  let kmax := match Ki with
+              | Some A => unbq (fold_right (fun row acc => fold_right (fun x a => let ax := (if bqltb x BigQ.zero then BigQ.opp x else x) in if bqltb a ax then ax else a) acc row) BigQ.zero A)
+              | None => 0 end in
   let rowmag a := bigsum Qops n (fun i => qabs (mget Qops mm a i)) in
   let scDk := mkmat Qops n n (fun a _ => qmul (rowmag a) kmax) in
   let scD := mkmat Qops (n - 1) (n - 1) (fun c _ => qmul 2 (qmul (rowmag (skip r c)) kmax)) in
   let symb (m : nat) (A : qmat) := forallb (fun i => forallb (fun j => Qeq_bool (mget Qops A i j) (mget Qops A j i)) (seq 0 m)) (seq 0 m) in
   (cmpm rt (i_K im) K (hess_scale d),
-   match Ki with Some A => Some (is_right_inv N K A) | None => None end,
+   match Ki with Some _ => Some (snd KiC) | None => None end,
    cmpm rt2 (i_H im) H (constm (n - 1) (n - 1) (qmul 4 kmax)),
    cmpm rt2 (i_P im) P (constm n n kmax),
    cmpm rt2 (i_Dk im) Dk scDk,
@@ -155,3 +199,9 @@ Definition eqm (A B : qmat) : bool :=
 Definition check_reorder (keys_sol keys_all : list nat) (D : qmat) (tr : qvec) (impl_D : qmat) (impl_tr : qvec) :=
   (eqm impl_D (reorder_mat Qops keys_sol D), eqm [impl_tr] [reorder_vec Qops keys_all tr],
    unsort keys_sol, unsort keys_all).
+
+(* ---- diffusivity-parameter databases ------------------------------------------------------------------ *)
+Definition check_diff (rt : Q) (r : nat) (corr raw : qvec) (impl_D : qmat) (impl_tr : qvec) :=
+  let n := length raw in
+  (cmpm rt impl_D (interdiff_from_diff Qops n r corr raw) (mabs (interdiff_from_diff Qops n r corr raw)),
+   cmpl_rel rt impl_tr (tracer_from_diff Qops corr raw)).
